@@ -75,6 +75,16 @@ def run(report, tier, seed):
                 continue
             report.count("models.execution-leg")
             c01._exercise(report, lab, lean, 3 if quick else 8, seed, quick)
+        # NDJSON is a serialization plan too: the lines C++ and Python write for the same values are the lines of the JSON model
+        # (which fields are left out when null is part of it), and each reads the other's. Fields that can be null in every way a
+        # type can say so.
+        from checks import c02
+        nl = codeclab.Lab(sc, ybin, 3002, modelgen.Gen(seed * 100129 + 3002, json_safe=True, cpp_json_safe=True), pkg=modelgen.nullable_package(), ndjson=True).prepare()
+        if not nl.ok:
+            report.violation(f"{nl.stage}:model", {"seed": seed, "model_index": nl.idx, "error": nl.err, "files": c01._files(nl)}, "")
+        else:
+            report.count("models.ndjson-leg")
+            c02.exercise(report, nl, lean, 3 if quick else 10, seed, "C14")
         lean.close()
 
 
